@@ -9,7 +9,8 @@ import fitcase
 
 PROP = 'C03'
 MODEL_OPS = 'FitModel.fit2_pkg / fit3_pkg on the base source and its variants'
-RULE = ('flag vectors enumerated exhaustively over {0,1,2,3,4,9}^n (quick: n<=3, plus 300 sampled n in {4,5}; thorough: all n<=5) crossed with random photometry; '
+RULE = ('every variant is fitted twice: as a fresh Source and on one Source object carried through all variants by re-assigning only the attributes that differ; ' +
+        'flag vectors enumerated exhaustively over {0,1,2,3,4,9}^n (quick: n<=3, plus 300 sampled n in {4,5}; thorough: all n<=5) crossed with random photometry; '
         'each case fits, on ONE Fitter: the base source, the same source with hostile values (-999, 0, negative, 1e+-30) in its flag-0/9 bands, '
         'with confidence-0 limits turned into flag 0, with flag-1 bands rewritten as flag 4 (transformed values), and with changed limit values; '
         '40 (400) sources with limits placed exactly on the fitted model (no penalty is due); both fitting modes (mode follows the number of fitted bands: 2-D needs >=2, 3-D >=1). non-trivial = at least one variant differs from the base source.')
@@ -108,6 +109,30 @@ def impl(case):
         for k, s in case['variants'].items():
             out[k] = fitcase.info_out(fitter.fit(fitcase.make_source(s)))
         out['base_again'] = fitcase.info_out(fitter.fit(fitcase.make_source(case['src'])))
+        # one Source object carried through all variants: after each fit only the attributes that differ are re-assigned
+        obj = fitcase.make_source(case['src'])
+        cur = case['src']
+        fitter.fit(obj)
+        for k, s in case['variants'].items():
+            if list(s['flags']) != list(cur['flags']):
+                obj.valid = list(s['flags'])
+            if list(s['flux']) != list(cur['flux']):
+                obj.flux = list(s['flux'])
+            if list(s['err']) != list(cur['err']):
+                obj.error = list(s['err'])
+            cur = s
+            out['reuse_' + k] = fitcase.info_out(fitter.fit(obj))
+        # the same object with ONLY its flags re-assigned: the first fitted band becomes unused (0) / plot-only (9), then fitted again
+        fitted = [j for j, f in enumerate(case['src']['flags']) if f in (1, 4)]
+        if fitted:
+            obj = fitcase.make_source(case['src'])
+            fitter.fit(obj)
+            for tag, nf in (('to0', 0), ('to9', 9), ('back', case['src']['flags'][fitted[0]])):
+                fl = list(case['src']['flags'])
+                fl[fitted[0]] = nf
+                obj.valid = fl
+                out['reflag_' + tag] = fitcase.info_out(fitter.fit(obj))
+                out['reflag_' + tag + '_fresh'] = fitcase.info_out(fitter.fit(fitcase.make_source(dict(case['src'], flags=fl))))
         out['n_data'] = int(fitcase.make_source(case['src']).n_data)
     return out
 
@@ -191,6 +216,14 @@ def judge(case, im, mo):
     # --- the clauses, between implementation runs
     if not _same(base, im['base_again']):
         fail.append('history: refitting the base source on the same fitter gives a different result')
+    for k in case['variants']:
+        if 'reuse_' + k in im and not _same(im[k], im['reuse_' + k]):
+            fail.append('reuse: a Source object whose flags / values were re-assigned to variant %s after earlier fits is fitted differently from a fresh Source with the same content' % k)
+            break
+    for tag in ('to0', 'to9', 'back'):
+        if 'reflag_' + tag in im and not _same(im['reflag_' + tag], im['reflag_' + tag + '_fresh']):
+            fail.append('reflag: after only the flags of an already fitted Source were re-assigned (%s) it is fitted differently from a fresh Source with those flags' % tag)
+            break
     if 'hostile' in im and not _same(base, im['hostile']):
         fail.append('unused: values carried by flag-0/9 bands change the fit')
     if 'conf0' in im and not _same(im['conf0'], im['conf0_as_flag0']):
